@@ -53,14 +53,17 @@ def stream_cipher(ctx, res, nkeys):
     rng = ctx.rng
     lengths = list(range(0, 81)) + [255, 256, 257, 1000]
     reqs, pend = [], []
-    for ki in range(nkeys):
-        key = bytes(rng.getrandbits(8) for _ in range(32))
+    edge_keys = [bytes(rng.getrandbits(8) for _ in range(31)) + b"\n", b"\r" + bytes(rng.getrandbits(8) for _ in range(30)) + b"\n", b" " * 32,
+                 bytes(rng.getrandbits(8) for _ in range(30)) + b"\r\n", b"\x00" * 32]
+    for ki in range(nkeys + len(edge_keys)):
+        # any 32 bytes are a key: also ones that begin or end with what a text tool calls white space, and the all-zero key
+        key = edge_keys[ki - nkeys] if ki >= nkeys else bytes(rng.getrandbits(8) for _ in range(32))
         other = bytes(rng.getrandbits(8) for _ in range(32))
         kp = os.path.join(tmp, "k%d" % ki)
         op = os.path.join(tmp, "o%d" % ki)
         open(kp, "wb").write(key)
         open(op, "wb").write(other)
-        plan = [(ln, None) for ln in (lengths if ki < 2 or ctx.thorough() else rng.sample(lengths, 12))]
+        plan = [(ln, None) for ln in (lengths if ki < 2 or ctx.thorough() else rng.sample(lengths, 12 if ki < nkeys else 4))]
         # plaintexts related to the key: equal leading bytes (the XOR then starts with NUL bytes), the key itself, NUL-led data
         plan += [(0, key[:1] + b"tail"), (0, key[:5] + b"x"), (0, key), (0, key + key[:3]), (0, b"\x00\x00abc"), (0, b"\x00" * 33),
                  (0, bytes(b ^ 0x20 for b in key[:8])), (0, bytes([key[0] ^ 0x0a]) + b"line"), (0, b"ends with the key byte" + key[22:23])]
@@ -135,14 +138,39 @@ def stream_cipher(ctx, res, nkeys):
                     res.violate("C08:provider-reuse", "XOR of a provider object used for several values is not data[i] ^ key[i mod 32] for each value", case)
             except Exception as e:  # noqa
                 res.violate("C08:provider-reuse", "a provider object used for several values raised %s" % type(e).__name__, dict(case, error=str(e)[:120]))
+        # two key files open at once (re-keying from an old file to a new one): each context works with its own key
+        for method in ("xor", "aes", "best"):
+            case = {"stream": "overlapping-contexts", "method": method, "key": key.hex(), "other": other.hex()}
+            res.case(("overlap", method, ki), kind="overlapping-contexts")
+            try:
+                pt = b"re-keyed value %d" % ki
+                with KeyFile(op) as old_kf:
+                    old_ct = old_kf.encrypt(pt, method)
+                    with KeyFile(kp) as new_kf:
+                        moved = new_kf.encrypt(old_kf.decrypt(old_ct), method)
+                        inner_back = new_kf.decrypt(moved)
+                    outer_back = old_kf.decrypt(old_ct)
+                with KeyFile(kp) as later:
+                    later_back = later.decrypt(SecureValue(moved.method, moved.ciphertext))
+                wrong = None
+                if moved.method == "xor":
+                    wrong = moved.ciphertext != bytes(b ^ key[i % 32] for i, b in enumerate(pt))
+                if (inner_back, outer_back, later_back) != (pt, pt, pt) or wrong:
+                    res.violate("C08:overlapping-contexts", "with two key files open at once a value is not encrypted / decrypted under the key of the context it went through",
+                                dict(case, inner=inner_back == pt, outer=outer_back == pt, later=later_back == pt, xor_under_other_key=wrong))
+            except Exception as e:  # noqa
+                res.violate("C08:overlapping-contexts", "with two key files open at once encryption / decryption raised %s" % type(e).__name__, dict(case, error=str(e)[:120]))
         # malformed ciphertexts / methods
         with KeyFile(kp) as kf:
             good = kf.encrypt(b"0123456789abcdefXYZ", "aes").ciphertext
-            for bad in [b"", good[:15], good[:16], good[:31], good[:33], good[:47], good + b"\x00", good[:-1], good[:32][:-1] + b"\xff"]:
-                case = {"stream": "malformed", "key": key.hex(), "ct": bad.hex()}
-                res.case(("malformed", len(bad)), kind="malformed-ct")
+            with KeyFile(op) as kfo2:
+                foreign = kfo2.encrypt(b"0123456789abcdefXYZ", "aes").ciphertext
+            for bad_method, bad in [("aes", b) for b in [b"", good[:15], good[:16], good[:31], good[:33], good[:47], good + b"\x00", good[:-1], good[:32][:-1] + b"\xff"]] + \
+                                   [("best", b) for b in [b"", good[:1], good[:15], good[:17], good[:31], good[:33], good[:47], good + b"\x00", good[:-1]]]:
+                case = {"stream": "malformed", "key": key.hex(), "ct": bad.hex(), "method": bad_method}
+                res.case(("malformed", bad_method, len(bad)), kind="malformed-ct")
                 try:
-                    out = kf.decrypt(SecureValue("aes", bad))
+                    out = kf.decrypt(SecureValue(bad_method, bad))
                     outcome = "ok:" + out.hex()
                 except Exception as e:  # noqa
                     outcome = "err"
